@@ -172,3 +172,37 @@ Section Reads.
       unfold db_step, read_op; rewrite HK; cbn [resolve_view view_scan]; rewrite S; cbn [omap]; unfold mark; rewrite mode_d; reflexivity.
   Qed.
 End Reads.
+
+(* ---- the observation list of a whole program ---- *)
+Lemma run_app cfg p1 : forall d p2,
+  run cfg d (p1 ++ p2) = (fst (run cfg (fst (run cfg d p1)) p2), snd (run cfg d p1) ++ snd (run cfg (fst (run cfg d p1)) p2)).
+Proof.
+  induction p1 as [|o r IH]; intros d p2; cbn [app run].
+  - cbn [fst snd app]. destruct (run cfg d p2); reflexivity.
+  - destruct (db_step cfg d o) as [d1 x]. rewrite IH. destruct (run cfg d1 r) as [d2 xs]. cbn [fst snd app]. reflexivity.
+Qed.
+
+Lemma run_length cfg p : forall d, length (snd (run cfg d p)) = length p.
+Proof.
+  induction p as [|o r IH]; intros d; cbn [run]; [reflexivity|]. destruct (db_step cfg d o) as [d1 x]. specialize (IH d1).
+  destruct (run cfg d1 r) as [d2 xs]. cbn [snd length] in *. rewrite IH. reflexivity.
+Qed.
+
+(* the line the interpreter prints for a `get` anywhere in a plain program (any writes, maintenance, deletions and reopens before
+   it) is the latest-version point read of the state the model reaches there *)
+Theorem plain_program_get_line filters p1 p2 h k :
+  forallb plain_op p1 = true ->
+  let d0 := db_init MPlain filters in
+  let d := fst (run as_is d0 p1) in
+  forall ks, handle_ks d h = Some ks -> d_seqno d < MAXSEQ ->
+  nth (length p1) (snd (run as_is d0 (p1 ++ OGet VwNone h k :: p2))) (Ox ObBadref) = Ox (ObOpt (abs MAXSEQ (k_tree ks) k)) /\
+  exists rs, d = fold_left rstep rs d0.
+Proof.
+  intros P d0 d ks HK B.
+  destruct (plain_run_reachable p1 d0 eq_refl P) as [rs R]. fold d in R.
+  split; [|exists rs; exact R].
+  rewrite run_app. cbn [snd]. rewrite app_nth2 by (rewrite run_length; lia). rewrite run_length, Nat.sub_diag.
+  fold d. cbn [run]. assert (E : db_step as_is d (OGet VwNone h k) = (d, Ox (ObOpt (abs MAXSEQ (k_tree ks) k)))).
+  { revert HK B. rewrite R. intros HK B. unfold d0. exact (plain_get_obs filters rs h ks HK B k). }
+  rewrite E. destruct (run as_is d p2). reflexivity.
+Qed.
